@@ -29,6 +29,7 @@ func Dedup(rrs []RR, m map[string]RR) []RR {
 	// If the length of the result map equals the amount of RRs we got,
 	// it means they were all different. We can then just return the original rrset.
 	if len(m) == len(rrs) {
+		clear(m)
 		return rrs
 	}
 
